@@ -1218,6 +1218,21 @@ class FnEmitter:
                     r = self.L.resolve_member_alias(f.record, member.rstrip('&* '))
                     if r:
                         rcanon = r
+            if re.search(r'enable_if|type-parameter|conditional<|remove_reference', rcanon):
+                def first_ret(n):
+                    if n.get('kind') == 'ReturnStmt' and children(n):
+                        return children(n)[0]
+                    for c in children(n):
+                        r = first_ret(c)
+                        if r is not None:
+                            return r
+                    return None
+                re_ = first_ret(body_of(n))
+                if re_ is None:
+                    raise Unsupported('cannot determine return type ' + rcanon)
+                rcanon = self.tm.canon_of(re_['type'])
+                if re_.get('valueCategory') in ('lvalue', 'xvalue') and rq.rstrip().endswith('&'):
+                    rcanon += ' &'
             self.ret_is_ref = rcanon.endswith('&')
             if rcanon == self.elem:
                 self.ret_by_out = True
@@ -1654,7 +1669,7 @@ def main():
             continue
         if f.text is not None and f.error is None:
             rep['lowered'][f.cname] = {'callees': sorted(f.callees), 'l0': sorted(f.l0), 'noexcept': f.noexcept,
-                                       'loops': getattr(f, 'nloops', 0), 'file': a.file_of.get(f.node['id']),
+                                       'loops': getattr(f, 'nloops', 0), 'proto': f.proto, 'qual': f.qual, 'file': a.file_of.get(f.node['id']),
                                        'line': a.line_of.get(f.node['id']),
                                        'mangled': f.node.get('mangledName'),
                                        'sha256': hashlib.sha256(f.text.encode()).hexdigest()}
